@@ -203,6 +203,12 @@ def _aggr(db, chk, m, cls, G):
                     chk.ob(rule, f"[{tag}] kept names are read from the relabelled summary frame", None, where, found=T.show(label[1])[:300])
                     continue
                 relabel, sctx = vo[0][1], vo[0][2]
+                # two spellings of the same decision: (1) the summary's name column is overwritten with 'others' and the kept names are what is left in it;
+                # (2) the rows that keep their name are SELECTED from the summary (row predicate) and their names collected
+                kept_pred = None
+                if relabel in (NAME, ("key", NAME)) and isinstance(sctx, tuple) and len(sctx) == 3 and sctx[1] != T.TRUE:
+                    kept_pred = sctx[1]
+                    sctx = (sctx[0], T.TRUE, sctx[2])
                 exp_order = [("sort", (base_sum,), False, k, None) for k in ("quicksort", "stable", "mergesort", "heapsort")]
                 chk.ob(rule, f"[{tag}] summary sorted by sum descending before the positional cut", sctx[2] in exp_order and sctx[1] == T.TRUE, where,
                        found=T.show_order(sctx[2])[:200], accepted="sort_values(by=['sum'], ascending=False)")
@@ -211,10 +217,10 @@ def _aggr(db, chk, m, cls, G):
                 csum = T.win("cumsum", (), base_sum, sctx)
                 a_q = T.cmp(">", csum, T.agg("quantile", csum, sctx, (T.P("duration_ratio"),)))
                 a_keep = T.cmp("<", base_sum, T.C(0)) if allow is None else ("in", T.col(("gb", Gctx, (NAME,)), "name") if False else None, None)
-                atoms = T.bool_atoms(relabel)
+                atoms = T.bool_atoms(relabel if kept_pred is None else kept_pred)
                 from .c06 import _table
-                at = {"cut": (a_cut, T.cmp("<", idx, NK)), "q": (a_q, None)}
-                keep_atoms = [a for a in atoms if a not in (a_cut, a_q, T.cmp("<", idx, NK))]
+                at = {"cut": (a_cut, T.cmp("<", idx, NK)), "q": (a_q, T.not_(a_q) if T.not_(a_q)[0] != "not" else None)}
+                keep_atoms = [a for a in atoms if a not in (a_cut, a_q, T.cmp("<", idx, NK), T.not_(a_q))]
                 always_false, always_true = T.cmp("<", base_sum, T.C(0)), T.cmp(">=", base_sum, T.C(0))
                 unknown = [a for a in keep_atoms if not (a[0] == "in" or a in (always_false, always_true))]
                 chk.ob(rule, f"[{tag}] cut atoms: fresh 0..n position >= num_kernels, cumulative sum > quantile(duration_ratio)", a_cut in atoms or T.cmp("<", idx, NK) in atoms, where,
@@ -227,15 +233,19 @@ def _aggr(db, chk, m, cls, G):
                             at["keep"] = (always_false, always_true)
                         else:
                             at["keep"] = (ka, None)
-                    names, rows = _table(relabel, at)
+                    names, rows = _table(relabel if kept_pred is None else kept_pred, at)
                     for vals, res in rows.items():
                         v = dict(zip(names, vals))
                         # 'keep' for the no-allow-list path is the always-false (sum < 0): only its False rows are realisable
                         if allow is None and v.get("keep") is True:
                             continue
                         others = (not v.get("keep", False)) and (v["cut"] or v["q"])
-                        want = T.C("others") if others else ("key", NAME)
-                        chk.ob(rule, f"[{tag}] relabel table {v}", res == want or (not others and res in (NAME, ("key", NAME))), where, found=T.show(res)[:120],
+                        if kept_pred is not None:
+                            okrow = res == (T.FALSE if others else T.TRUE)
+                        else:
+                            want = T.C("others") if others else ("key", NAME)
+                            okrow = res == want or (not others and res in (NAME, ("key", NAME)))
+                        chk.ob(rule, f"[{tag}] relabel table {v}", okrow, where, found=T.show(res)[:120],
                                accepted="'others'" if others else "own name", why="others iff not allow-listed and (position >= num_kernels or beyond the duration quantile)")
                 guard = T.cmp(">", ("nrows", sctx), NK)
                 guard2 = T.cmp(">=", ("nrows", sctx), T.add(NK, T.C(1)))
